@@ -61,6 +61,14 @@ def _net_arg(rng, wins, allow6=True, raw=False):
             form = 'addr'                           # a small int would be read as IPv4
     elif raw and rng.random() < 0.25:
         form = 'hoststr' if (0 < p < w and rng.random() < 0.4) else 'maskstr'
+    if raw and ver == 4 and p == w and form in ('str', 'addrstr') and rng.random() < 0.35:
+        # bare IPv4 texts that IPNetwork() and IPAddress() read differently (partial: padded on the right / filled in
+        # the middle; zero-padded octets: decimal / octal) - the model does the coercion each API documents
+        if rng.random() < 0.5:
+            val &= ~0xff if rng.random() < 0.6 else ~0xffff
+            form = 'partstr'
+        else:
+            form = 'zpadstr'
     if raw and rng.random() < 0.02:
         form = rng.choice(['bad', 'bad', 'badint'])
     return ('N', ver, val, p, form)
@@ -438,6 +446,13 @@ def build_arg(a):
             return common.make_addr(ver, val)
         if form == 'addrstr':
             return _addr_text(ver, val)
+        if form == 'partstr':
+            octs = [val >> 24, (val >> 16) & 255, (val >> 8) & 255, val & 255]
+            while len(octs) > 1 and octs[-1] == 0:
+                octs.pop()
+            return '.'.join('%d' % o for o in octs)
+        if form == 'zpadstr':
+            return '.'.join('%03d' % o for o in (val >> 24, (val >> 16) & 255, (val >> 8) & 255, val & 255))
         if form == 'int':
             return val
         w = W[ver]
@@ -629,6 +644,11 @@ def run_impl(ops, raw=False):
                     else:
                         r ^= b
                     extra['operands_unchanged'] = (j == i) or show_set(b) == before[1]
+                elif (len(before[0]) // 3 + len(before[1]) // 3 + len(o)) % 3 == 1:
+                    # the named method instead of the operator (the class binds the operators to these methods;
+                    # both spellings are the API)
+                    common.COUNTS['call/set-algebra-by-method-name'] += 1
+                    r = {'or': a.union, 'and': a.intersection, 'sub': a.difference, 'xor': a.symmetric_difference}[o](b)
                 else:
                     if o == 'or':
                         r = a | b
